@@ -93,7 +93,7 @@ def contracts(Ty: Types, reg: Registry, ctx, pid="C01"):
 
     def refused(c):
         cs = calls(c)
-        return z3.And(T(len(cs) == 1 and cs[0]["case"] == "refused"), no_update(c))
+        return z3.And(T(len(cs) == 1 and cs[0]["case"].startswith("refused")), no_update(c))
 
     def accepted_write(c):
         cs = calls(c)
